@@ -47,5 +47,5 @@ var domVB = []ivg.ViewBox{
 	ivg.DefaultViewBox,
 	{MinX: 0, MinY: 0, MaxX: 48, MaxY: 48},
 	{MinX: -10, MinY: 5, MaxX: 30, MaxY: 25},
-	{MinX: 0.125, MinY: 0.125, MaxX: 0.75, MaxY: 1.25},
+	{MinX: 0.125, MinY: 0.125, MaxX: 0.7578125, MaxY: 1.25}, // MaxX = 97/128: off the 1/64 grid, exact in the 4-byte form
 }
